@@ -179,3 +179,9 @@ def cross(cases, impl, model):
             if bad:
                 out.append((i, "exchanging the factors does not transpose the product"))
     return out
+
+
+def gen_q(rng, tier):
+    """exact-rational cases: see qgen.py"""
+    from . import qgen
+    return qgen.products(rng, tier)
